@@ -3,6 +3,16 @@ use open_hypergraphs::array::vec::connected_components;
 use open_hypergraphs::array::*;
 use core::ops::{Add, Deref, DerefMut, Index, RangeBounds, Sub};
 
+use std::sync::atomic::{AtomicUsize, Ordering};
+
+/// 0 = "adv": every open choice resolved the other way round than on Vec;
+/// 1 = "adv2": argsort keeps the first of a group of equal keys in front and lists the others in
+///     decreasing position, component numbering reversed, sparse_bincount and scatter as on Vec.
+pub static MODE: AtomicUsize = AtomicUsize::new(0);
+fn mode() -> usize {
+    MODE.load(Ordering::Relaxed)
+}
+
 #[derive(PartialEq, Eq, Clone, Debug)]
 pub struct AdvKind {}
 
@@ -93,6 +103,15 @@ impl<T: Clone> Array<AdvKind, T> for AdvArray<T> {
             assert!(idx.is_empty());
             return AdvArray(vec![]);
         }
+        if mode() == 1 {
+            // as on Vec: filler is the first element, the last write wins
+            let mut y = vec![self[0].clone(); n];
+            assert!(idx.len() >= self.len());
+            for i in 0..self.len() {
+                y[idx[i]] = self[i].clone();
+            }
+            return AdvArray(y);
+        }
         let mut y = vec![self[self.len() - 1].clone(); n];
         assert!(idx.len() >= self.len());
         for i in (0..self.len()).rev() {
@@ -156,6 +175,25 @@ impl<T: Clone + Sub<Output = T>> Sub<AdvArray<T>> for AdvArray<T> {
 
 impl<T: Ord + Clone> OrdArray<AdvKind, T> for AdvArray<T> {
     fn argsort(&self) -> AdvArray<usize> {
+        if mode() == 1 {
+            // insertion sort; a new index goes right behind the first index with an equal key
+            let mut l: Vec<usize> = Vec::with_capacity(self.len());
+            for i in 0..self.len() {
+                let mut pos = l.len();
+                for (p, &j) in l.iter().enumerate() {
+                    if self[i] < self[j] {
+                        pos = p;
+                        break;
+                    }
+                    if self[i] == self[j] {
+                        pos = p + 1;
+                        break;
+                    }
+                }
+                l.insert(pos, i);
+            }
+            return AdvArray(l);
+        }
         // sorts, but equal keys come in DEcreasing index order
         let mut indices = (0..self.len()).rev().collect::<Vec<_>>();
         indices.sort_by_key(|&i| &self[i]);
@@ -258,7 +296,9 @@ impl NaturalArray<AdvKind> for AdvArray<usize> {
         // Extract and sort unique indices
         let mut unique_indices: Vec<_> = counts_map.keys().cloned().collect();
         unique_indices.sort_unstable();
-        unique_indices.reverse(); // descending keys
+        if mode() != 1 {
+            unique_indices.reverse(); // descending keys
+        }
 
         // Gather counts in the same order as unique indices
         let counts: Vec<_> = unique_indices.iter().map(|&idx| counts_map[&idx]).collect();
